@@ -249,9 +249,28 @@ func txHashesOf(b *pb.Block) []*types.Hash {
 }
 
 func orderTx(k *sim.Key, nonce uint64, salt int) pb.Transaction {
-	tx := &pb.BxhTransaction{From: k.Addr, To: sim.KeyFor("order-sink").Addr, Nonce: nonce, Timestamp: int64(1000 + nonce), Payload: []byte(fmt.Sprintf("s%d", salt))}
+	return orderTxTS(k, nonce, salt, int64(1000+nonce))
+}
+
+// orderTxTS sets the transaction's own timestamp (the pool's ready index is ordered by it).
+func orderTxTS(k *sim.Key, nonce uint64, salt int, ts int64) pb.Transaction {
+	tx := &pb.BxhTransaction{From: k.Addr, To: sim.KeyFor("order-sink").Addr, Nonce: nonce, Timestamp: ts, Payload: []byte(fmt.Sprintf("s%d", salt))}
 	tx.TransactionHash = tx.Hash()
 	return tx
+}
+
+type orderPending struct {
+	a     int
+	nonce uint64
+}
+
+// submissionOrder draws the order in which the transactions of a round reach the node: mostly nonce order, sometimes
+// permuted (a higher nonce arrives, and was signed, before a lower one of the same account).
+func submissionOrder(t *rapid.T, batch []orderPending) []orderPending {
+	if len(batch) < 2 || rapid.IntRange(0, 2).Draw(t, "permute") != 0 {
+		return batch
+	}
+	return rapid.Permutation(batch).Draw(t, "arrival")
 }
 
 func writeOrderToml(dir string, batchSize int, batchTimeout string, timed bool, blockTimeout string, snapCount int, tick string) {
@@ -342,18 +361,24 @@ func c20SoloProperty(t *rapid.T) {
 	}
 	_ = start
 	n, stop := start()
+	tsSeq := int64(0)
 	rounds := rapid.IntRange(1, 4).Draw(t, "rounds")
 	for r := 0; r < rounds; r++ {
 		cnt := rapid.IntRange(0, 7).Draw(t, "txs")
+		var batch []orderPending
 		for i := 0; i < cnt; i++ {
 			a := rapid.IntRange(0, 1).Draw(t, "acct")
-			tx := orderTx(keys[a], next[a], 0)
+			batch = append(batch, orderPending{a, next[a]})
 			next[a]++
-			if err := n.Prepare(tx); err != nil {
+		}
+		arrival := submissionOrder(t, batch)
+		for _, p := range arrival {
+			tsSeq++
+			if err := n.Prepare(orderTxTS(keys[p.a], p.nonce, 0, 1000+tsSeq)); err != nil {
 				t.Fatalf("C20 harness: Prepare: %v", err)
 			}
 		}
-		ops = append(ops, fmt.Sprintf("round %d: %d transactions", r, cnt))
+		ops = append(ops, fmt.Sprintf("round %d: %d transactions, arrival order %v", r, cnt, arrival))
 		time.Sleep(time.Duration(rapid.IntRange(20, 120).Draw(t, "waitMs")) * time.Millisecond)
 		if rapid.IntRange(0, 2).Draw(t, "restart") == 0 {
 			n.Stop()
